@@ -8,6 +8,7 @@ only="${1:-}"; par="${SWEEP_PAR:-4}"
 one() {
   d=$1; name=$(basename $d)
   if grep -q '"status_on_current_tree": "superseded' $d/meta.json; then echo "$name SUPERSEDED (see meta.json)"; return; fi
+  if grep -q '"status_on_current_tree": "not detected' $d/meta.json; then echo "$name NOT-DETECTED (see meta.json)"; return; fi
   checks=$(python3 -c "
 import json,re
 m=json.load(open('$d/meta.json'))
